@@ -191,7 +191,7 @@ def build_harness(quiet=True):
 
 
 def run_harness(sub, cases, workdir_, shards=None, hang_timeout=8.0, env=None, extra_args=None,
-                total_timeout=3600, max_hangs=2):
+                total_timeout=3600, max_hangs=2, mem_limit_mb=None):
     """Run `vh <sub> IN OUT` over the cases (list of JSON-able objects, each gets "case": index).
     The harness writes one observation line per case, flushed, in order.  A worker that makes no
     progress for hang_timeout seconds is killed; the in-flight case is recorded as result "hang"
@@ -234,8 +234,12 @@ def run_harness(sub, cases, workdir_, shards=None, hang_timeout=8.0, env=None, e
             open(outp, "w").close()
             cmd = [vh, sub, inp, outp] + (extra_args or [])
             errp = outp + ".stderr"
+            def _limit():
+                if mem_limit_mb:
+                    import resource
+                    resource.setrlimit(resource.RLIMIT_AS, (mem_limit_mb << 20, mem_limit_mb << 20))
             with open(errp, "w") as ef:
-                p = subprocess.Popen(cmd, stdout=subprocess.DEVNULL, stderr=ef, env=e)
+                p = subprocess.Popen(cmd, stdout=subprocess.DEVNULL, stderr=ef, env=e, preexec_fn=_limit if mem_limit_mb else None)
             last_size, last_change = 0, time.time()
             status = None
             while True:
